@@ -54,6 +54,7 @@ class BuildMachine(Machine):
         self.live = {}
         self.live_ncwb = {}
         self.live_body = {}
+        self._pool = {}
         self.had_mix = False
         self.trace = []
 
@@ -67,6 +68,7 @@ class BuildMachine(Machine):
             p_ignorable=w.choice([0.0, 0.1, 0.3]),
             p_blank=w.choice([0.0, 0.1]),
             overlimit=w.random() < 0.15,
+            both_platforms=w.random() < 0.4,
             max_lines=w.choice([3, 8, 15]),
             names=w.random() < 0.5,
             p_group=0.1, p_ncw=0.15, p_multi=0.3, p_related=0.3, p_heading=0.1, p_remark=0.15,
@@ -81,6 +83,7 @@ class BuildMachine(Machine):
         self.live = {}
         self.live_ncwb = {}
         self.live_body = {}
+        self._pool = {}
 
     def teardown(self):
         self.live = {}
@@ -119,8 +122,24 @@ class BuildMachine(Machine):
     def _acl_body(self, w, platform, max_ncwb):
         cfg = self.cfg
         lines, specs = gen.gen_acl_lines(w, cfg, platform, "0")
+        mine = self._pool.setdefault(platform, [])
+        if mine and w.random() < 0.5:
+            # lines this platform accepts that were met before in this history (possibly offered
+            # to the other platform, which may have refused and reported them)
+            k = w.randint(1, min(3, len(mine)))
+            for ln, sp in w.sample(mine, k):
+                pos = w.randint(0, len(lines))
+                lines.insert(pos, ln)
+                specs.insert(pos, sp)
+        seen = {ln for ln, _ in mine}
+        mine.extend((ln, sp) for ln, sp in zip(lines, specs) if sp is not None and ln not in seen)
+        del mine[:-12]
         body = []
         pool = list(lines)
+        foreign = self._pool.get("nxos" if platform == "ios" else "ios", [])
+        for ln, _sp in foreign[-4:]:
+            if w.random() < 0.5 and ("group" in ln or "/" in ln or len(ln.split()) > 9):
+                body.append(["invalid", ln])  # may be refused here, or become an item
         for ln, spec in zip(lines, specs):
             if spec is not None and any(a[0] == "wild" and gen.ncw_bits(a[2]) > max_ncwb
                                         for a in (spec["src"], spec["dst"])):
@@ -187,17 +206,20 @@ class BuildMachine(Machine):
         w, s, f = st.w, st.s, st.f
         cfg = self.cfg
         platform = cfg["platform"]
+        if cfg.get("both_platforms") and s.random() < 0.5:
+            platform = "nxos" if platform == "ios" else "ios"
         target = s.choice(["Acl", "Acl", "Acl", "AceGroup", "AceGroup", "AddrGroup", "AddrGroup",
                            "AddrGroupItems"])
         via = "ctor"
         max_ncwb = w.choice([0, 1, 2, 3]) if cfg["overlimit"] else 16
-        if target in self.live and s.random() < 0.4:
+        key = f"{target}:{platform}"
+        if key in self.live and s.random() < 0.4:
             via = "setter"
-            max_ncwb = self.live_ncwb.get(target, 16)
-            if target in self.live_body and s.random() < 0.35:
+            max_ncwb = self.live_ncwb.get(key, 16)
+            if key in self.live_body and s.random() < 0.35:
                 # the text the object was built from, assigned again after an in-place change
                 return dict(op="build", target=target, via="setter_same", platform=platform,
-                            lines=self.live_body[target], fail_at=None, fault_mode="raise",
+                            lines=self.live_body[key], fail_at=None, fault_mode="raise",
                             max_ncwb=max_ncwb, mutate=s.choice(["pop", "reverse", "append",
                                                                 "seq", "clear"]))
         if target in ("AddrGroup", "AddrGroupItems"):
@@ -249,19 +271,21 @@ class BuildMachine(Machine):
             self.probes["sink_error_swallowed"] += 1
         self._walk(op, body, obj, recs)
         if target in ("Acl", "AceGroup", "AddrGroup"):
-            self.live[target] = obj
-            self.live_body[target] = [[k, t] for k, t in op["lines"]]
+            key = f"{target}:{platform}"
+            self.live[key] = obj
+            self.live_body[key] = [[k, t] for k, t in op["lines"]]
             if via == "ctor":
-                self.live_ncwb[target] = op["max_ncwb"]
+                self.live_ncwb[key] = op["max_ncwb"]
         return "ok"
 
     def _construct(self, op, body):
         target, platform, via = op["target"], op["platform"], op["via"]
         texts = [t for _, t in body]
-        if via in ("setter", "setter_same") and target not in self.live:
+        key = f"{target}:{platform}"
+        if via in ("setter", "setter_same") and key not in self.live:
             via = "ctor"  # ops are total: without a live object the text is simply constructed
-        if via == "setter_same" and target in self.live:
-            obj = self.live[target]
+        if via == "setter_same" and key in self.live:
+            obj = self.live[key]
             how = op.get("mutate")
             try:
                 if how == "pop" and obj.items:
@@ -281,14 +305,14 @@ class BuildMachine(Machine):
             head = gen.header(platform, "extended", "T1")
             text = "\n".join([head, *texts])
             if via == "setter":
-                obj = self.live["Acl"]
+                obj = self.live[key]
                 obj.line = text
                 return obj
             return Acl(text, platform=platform, max_ncwb=op["max_ncwb"])
         if target == "AceGroup":
             text = "\n".join(texts)
             if via == "setter":
-                obj = self.live["AceGroup"]
+                obj = self.live[key]
                 obj.line = text
                 return obj
             return AceGroup(text, platform=platform, max_ncwb=op["max_ncwb"])
@@ -296,7 +320,7 @@ class BuildMachine(Machine):
         if target == "AddrGroup":
             text = "\n".join([head, *["  " + t for t in texts]])
             if via == "setter":
-                obj = self.live["AddrGroup"]
+                obj = self.live[key]
                 obj.line = text
                 return obj
             return AddrGroup(text, platform=platform)
